@@ -19,9 +19,27 @@ package cache
 
 // Resolving an entity reads git data and may load it into the in-memory cache; it changes neither refs,
 // objects nor excerpts (assumed here, decided under C11).
+// The prefix/matcher lookups take the sub-cache lock only inside resolveMatcher, Resolve and ResolveExcerpt:
+// they are entered without it and must not hold it around those calls (C18).
 //@ func (*SubCache).ResolvePrefix
-//@   trusted
+//@ func (*SubCache).ResolveExcerptPrefix
+//@   props C18
+//@   opt locks
+//@   opt post_unguarded
+//@   requires [not-held@locks] sc != nil && sync.rwheld[&sc.mu] == 0
 //@   modifies nothing
+//@   opt trusted_frame
+//@   ensures [lock-balanced] forall m *sync.RWMutex :: { sync.rwheld[m] } sync.rwheld[m] == old(sync.rwheld[m])
+//@ func (*SubCache).ResolveMatcher
+//@ func (*SubCache).ResolveExcerptMatcher
+//@   props C18
+//@   opt locks
+//@   opt post_unguarded
+//@   pure f
+//@   requires [not-held@locks] sc != nil && sync.rwheld[&sc.mu] == 0
+//@   modifies nothing
+//@   opt trusted_frame
+//@   ensures [lock-balanced] forall m *sync.RWMutex :: { sync.rwheld[m] } sync.rwheld[m] == old(sync.rwheld[m])
 // ResolveComment: the bug handed back is the one that holds the comment handed back, and that comment's
 // combined id starts with the given prefix (C13: "resolves to that comment and its bug, never to another").
 //@ func (*RepoCacheBug).ResolveComment
@@ -148,10 +166,13 @@ package cache
 // ... and what it keeps in memory for a bug or identity the pull reported as new or updated is the merged
 // entity that came with the report - also when an older instance was already loaded (C02: "the entity handed
 // back ... is the merged result"; C11: "later edits made through the cache build on the merged history").
+// (a pull replaces the loaded instance of an updated entity by the merged one: exempt from the never-replace
+// rule of the table of loaded entities - pulls are not part of the concurrent mix of the web UI)
 //@ func (*SubCache).MergeAll$1
 //@   props C07 C11 C02 C18
 //@   stable excerptFrom, cachedFrom
 //@   opt locks
+//@   opt may_replace=cached
 //@   requires [not-held] sc != nil && sync.rwheld[&sc.mu] == 0
 //@   nopanic typeassert
 //@   recvinv results: (elem.Status == entity.MergeStatusNew || elem.Status == entity.MergeStatusUpdated) && elem.Err == nil ==> implements(elem.Entity, EntityT)
@@ -176,7 +197,8 @@ package cache
 //@   opt locks
 //@   pure f
 //@   requires sc != nil && sync.rwheld[&sc.mu] == 0
-//@   requires [excerpts-present] forall id entity.Id :: { sc.excerpts[id] } (id in sc.excerpts) ==> sc.excerpts[id] != nil
+//@   opt post_unguarded
+//@   requires [excerpts-present@matchrules] forall id entity.Id :: { sc.excerpts[id] } (id in sc.excerpts) ==> sc.excerpts[id] != nil
 //@   modifies sync.rwheld, allelems(entity.Id)
 //@   ensures [lock-balanced] forall m *sync.RWMutex :: { sync.rwheld[m] } sync.rwheld[m] == old(sync.rwheld[m])
 //@   ensures [one-match]     result1 == nil ==> (exists id entity.Id :: (id in sc.excerpts) && f(sc.excerpts[id]) && sc.excerpts[id].Id() == result) && (forall id entity.Id :: { sc.excerpts[id] } (id in sc.excerpts) && f(sc.excerpts[id]) ==> sc.excerpts[id].Id() == result)
@@ -259,7 +281,9 @@ package cache
 // The excerpt table and the table of loaded entities are shared between the goroutines of the web UI; they
 // may only be touched with the sub-cache's lock held (read lock to read, write lock to change), and nothing
 // learnt about them in one critical section is still known in the next.
-//@ guarded SubCache.cached, SubCache.excerpts by SubCache.mu
+// ... and an entry of the table of loaded entities is never replaced by another instance (entries come and go):
+// every write is checked against that rule and every acquisition may rely on it.
+//@ guarded SubCache.cached, SubCache.excerpts by SubCache.mu keeping SubCache.cached
 
 // Resolve: the entity is looked up under the read lock; on a miss it is read from git with no lock held and
 // then published under the write lock. Exactly one instance per entity may ever be handed out - two
@@ -273,7 +297,7 @@ package cache
 //@   modifies nothing
 //@   opt trusted_frame
 //@   ensures [lock-balanced] forall m *sync.RWMutex :: { sync.rwheld[m] } sync.rwheld[m] == old(sync.rwheld[m])
-//@   assert at `sc.cached[id] = cached` [single-instance] !(id in sc.cached)
+//@   ensures [no-second-instance] result1 == nil && (id in sc.cached) ==> sc.cached[id] == result
 
 //@ func (*SubCache).ResolveExcerpt
 //@   props C18
@@ -290,7 +314,6 @@ package cache
 //@   opt pre_only_if=locks
 //@   requires [not-held] sc != nil && sync.rwheld[&sc.mu] == 0
 //@   ensures [lock-balanced] forall m *sync.RWMutex :: { sync.rwheld[m] } sync.rwheld[m] == old(sync.rwheld[m])
-//@   assert at `sc.cached[e.Id()] = cached` [single-instance] !(e.Id() in sc.cached)
 
 // (C11) when it reports success the excerpt of the entity has been recomputed from the loaded instance and
 // the entity has been (re)indexed.
@@ -358,8 +381,10 @@ package cache
 //@   opt pre_only_if=locks
 //@   requires [not-held] sc != nil && sync.rwheld[&sc.mu] == 0
 //@   ensures [lock-balanced] forall m *sync.RWMutex :: { sync.rwheld[m] } sync.rwheld[m] == old(sync.rwheld[m])
+//@   ensures [entries-not-replaced] forall k entity.Id :: { sc.cached[k] } old(k in sc.cached) && (k in sc.cached) ==> sc.cached[k] == old(sc.cached[k])
 //@   loop 1
 //@     invariant [cache-lock-kept] sync.rwheld[&sc.mu] == -1
+//@     invariant [entries-not-replaced] forall k entity.Id :: { sc.cached[k] } old(k in sc.cached) && (k in sc.cached) ==> sc.cached[k] == old(sc.cached[k])
 
 // ---- wipe (C14) ------------------------------------------------------------------------------------------
 // entitiesWiped: every bug and identity (refs, cache entries, index documents) has been removed.
@@ -596,3 +621,8 @@ package cache
 //@   requires c != nil && c.repo != nil
 //@   ensures [no-lock-file-when-unavailable] !lastAvailable ==> result != nil && repository.storageCreates == old(repository.storageCreates)
 //@   ensures [creates-the-lock-file] result == nil ==> repository.storageCreates == old(repository.storageCreates) + 1 && repository.lastCreated == lockfile
+
+//@ func NewIdentityCache
+//@   props C18
+//@   modifies nothing
+//@   ensures result != nil && fresh(result)
